@@ -186,7 +186,7 @@ PROPS = {
             "note": "liveness in safety form (armed invariant + decreasing measure) under the assumption that an armed writable fd is eventually reported",
             "technique": _TECH},
         "lean": ["NbioVerif.Properties.C04"], "drivers": ["conndrv"], "harness": ["hconn"],
-        "runs": [_run_with_real(["deliv", "closed", "wl", "wadded", "reg", "kout", "dis", "ctl", "onclose"])],
+        "runs": [_run_with_real(["deliv", "closed", "wl", "wadded", "reg", "kout", "dis", "edge", "ctl", "onclose"])],
         "oracles": ["c04-"], "cs": _CS,
         "rule": "same stream as C01 (writes inside the open callback before registration, from the data callback while an event is handled, "
                 "and between events; EPOLLOUT-only events whose flush ends in EAGAIN); non-trivial iff a backlog existed at some observation",
